@@ -133,9 +133,16 @@ def check(prop, spec, tier, seed, replay=None):
             known_hit.setdefault(f["id"], (f, fl))
         else:
             unknown_fail.append(fl)
-    # mismatches inside a known class are not a broken tie
+    # mismatches inside a known class are not a broken tie; a property only depends on the
+    # kinds of observables it projects
+    import re as _re
+    kinds = spec.get("mismatch_kinds")
     unknown_mis = []
     for ml in results["mismatch"]:
+        if kinds is not None:
+            kind = ml[len("MISMATCH "):].split(" h=", 1)[0].split(" :: ", 1)[0]
+            if not any(_re.search(k, kind) for k in kinds):
+                continue
         if match_known(prop, "FAIL %s  %s" % (prop, ml), [dict(f, clause="") for f in kf.get("findings", [])
                                                               if f.get("covers_mismatch")]) is None:
             unknown_mis.append(ml)
